@@ -9,6 +9,14 @@ CLAIMED = {
    "Runtime differential monitoring of the real value codec against an independent reference codec over generated value trees (all 43 kinds, boundary integers, depths 1..40, both epochs and per-container mixes), plus 100k-deep chains on a 256 KiB stack in a child process. Held on the executions observed; a sampled universal claim, which is the right level for an input-quantified codec property without proof tooling in this family.",
    "Trusts the harness reference codec (cross-checked in both directions on every case) and rustc; profile = release + debug-assertions + overflow-checks.",
    "runtime differential oracle (reference codec) + panic/abort monitor", "DESIGN.md §3 C01"),
+ "C07": ("codec-lab", "exploration",
+   "Runtime monitoring of every public entry point that reads untrusted value bytes (decode, kind, len+skip, split-off, prefix measurement, unknown-field and unknown-variant capture and re-serialization) under a panic monitor, a peak-allocation monitor and an address-space limit, compared against an independent reference decoder/skipper on random, valid, mutated, truncated and hostile-length inputs. Held on the inputs observed.",
+   "Trusts the harness reference skipper as the definition of acceptance (error kinds are not compared); aborts are attributed through per-case progress files of child processes.",
+   "runtime differential oracle + panic/allocation/abort monitors", "DESIGN.md §3 C07"),
+ "C13": ("codec-lab", "exploration",
+   "Runtime monitoring of SerializedValueSlice::convert, SerializedValue::convert and MessageOps::convert_value (all 14 payload-carrying kinds) over reference encodings (both epochs, mixed, non-minimal) and malformed inputs for version pairs in and around 1.14..1.20; oracle = reference skipper (well-formedness), reference kind scanner (no 1.20 container kind left), reference and real decode (same meaning), byte-identity for same/newer epoch, idempotence. Held on the inputs observed.",
+   "Trusts the harness reference codec; conversion of ill-formed input that succeeds is recorded, not judged (the statement does not constrain it).",
+   "runtime differential + metamorphic oracle (idempotence, identity)", "DESIGN.md §3 C13"),
 }
 
 def main():
